@@ -139,7 +139,10 @@ def parse_operations(
                         }
                     else:
                         resp_node_resolved = rn_node
-                    resps.append(parse_response(sc, resp_node_resolved, context, operation_id_for_promo=operation_id))
+                    # YAML loads an unquoted status code (`200:`) as an int; OpenAPI status codes are strings
+                    resps.append(
+                        parse_response(str(sc), resp_node_resolved, context, operation_id_for_promo=operation_id)
+                    )
 
                 op = IROperation(
                     operation_id=operation_id,
